@@ -22,6 +22,7 @@ import OidcModel.Spec.C10
 import OidcModel.Generated.StorageCalls
 import OidcModel.Generated.C10Facts
 import OidcModel.Proofs.C10Flow
+import OidcModel.Proofs.C10Sched
 
 namespace C10
 
@@ -89,6 +90,40 @@ theorem c10_success_needs_all {σ : Type} (calls : List (Call σ)) (s r : σ) (h
   intro i hi hf
   obtain ⟨e, he⟩ := runCalls_error_of_fails calls s ⟨i, hi, hf⟩
   rw [he] at h; cases h
+
+/-! ### the abstract core under an arbitrary FAULT SCHEDULE (call index ↦ optional error) -/
+
+/-- apply a fault schedule to a call sequence: call i fails with `e` when the schedule says `some e` -/
+def injectSched {σ : Type} (calls : List (Call σ)) (sch : Nat → Option String) : List (Call σ) :=
+  calls.mapIdx fun i c => match sch i with | some e => (fun _ => .error e) | none => c
+
+/-- C10 (abstract, schedules): whatever the schedule - one fault, the same call failing k times, faults at several indices,
+    every call failing - as soon as it fails SOME call of the sequence the handler's result is an error -/
+theorem c10_fail_closed_sched {σ : Type} (calls : List (Call σ)) (sch : Nat → Option String)
+    (h : ∃ i, i < calls.length ∧ (sch i).isSome = true) (s : σ) : ∃ e', runCalls (injectSched calls sch) s = .error e' := by
+  obtain ⟨i, hi, hs⟩ := h
+  apply runCalls_error_of_fails
+  refine ⟨i, by simpa [injectSched] using hi, ?_⟩
+  intro s'
+  obtain ⟨e, he⟩ := Option.isSome_iff_exists.mp hs
+  exact ⟨e, by simp [injectSched, hi, he]⟩
+
+/-- … and a schedule that fails none of the calls changes nothing -/
+theorem c10_sched_no_fault_same {σ : Type} (calls : List (Call σ)) (sch : Nat → Option String)
+    (h : ∀ i, i < calls.length → sch i = none) : injectSched calls sch = calls := by
+  apply List.ext_getElem
+  · simp [injectSched]
+  · intro i h1 h2
+    have hi : i < calls.length := by simpa [injectSched] using h1
+    simp [injectSched, h i hi]
+
+/-- single faults are schedules: `inject` is `injectSched` of the one-point schedule -/
+theorem inject_eq_injectSched {σ : Type} (calls : List (Call σ)) (k : Nat) (e : String) :
+    inject calls k e = injectSched calls (fun i => if i = k then some e else none) := by
+  apply List.ext_getElem
+  · simp [inject, injectSched]
+  · intro i h1 h2
+    by_cases hik : i = k <;> simp [inject, injectSched, hik]
 
 /-! ## the regenerated handlers -/
 
@@ -207,6 +242,48 @@ theorem c10_handlers_answer_with_error :
   · rw [hnr] at h; cases h
   · rw [hk] at h3; exact ⟨h3, h1, h2⟩
 
+/-! ### fault SCHEDULES over the regenerated handlers -/
+
+/-- C10 for arbitrary fault schedules.  For EVERY regenerated function F, EVERY schedule σ (a function from the index of a call
+    into the storage - counted over the whole request, helpers included - to the error kind it fails with, if any: single faults,
+    the same call failing k times in a row, faults at two or more indices, every call failing, with any mix of the kinds
+    plain / deadline / canceled / oidc.Error / StatusError / any named sentinel) and EVERY execution that follows σ: each call
+    the schedule fails and the execution makes is closed - no success step and no further failing call after it and the function
+    ends in the error class, unless the failure arrived at an audited tolerated site or the same call site is called again
+    (then the statement holds for that later attempt).  Every execution follows some schedule (`follows_schedOf`). -/
+theorem c10_fail_closed_schedules :
+    ∀ (f : Nat) (F : Fn), GenC10.fns[f]? = some F →
+    ∀ (σ : Sched) (ρ : Env) (tr : List Ev) (x : CV), Run GenC10.fns audit f F.sk ρ tr x → Follows σ tr →
+    ∀ (j : Nat) (kind : EKind), j < (callOutcomes tr).length → σ j = some kind →
+      ∃ i g site, nthCall tr j = some (i, .sfail g site kind) ∧
+        (hasAbs (tr.drop (i + 1)) = true ∨ retriedAt g site (tr.drop (i + 1)) = true ∨
+         (noSucc (tr.drop (i + 1)) = true ∧ noFail (tr.drop (i + 1)) = true ∧ exitOK F.kind x (tr.drop (i + 1)) = true)) := by
+  intro f F hF σ ρ tr x hrun hσ j kind hj hk
+  obtain ⟨i, g, s, hn, hc⟩ := sched_fail_closed c10_wf hF hrun σ hσ j kind hj hk
+  exact ⟨i, g, s, hn, by simpa [closedFor, Bool.or_eq_true, Bool.and_eq_true, and_assoc, or_assoc] using hc⟩
+
+/-- REPEATED faults (the retry class, seeded C10-E / C10-M): if every call an execution makes at some call site fails - all k
+    attempts, whatever the kinds - and nothing is absorbed, then after the LAST attempt no success step and no failing call
+    follows and the function ends in the error class: an exhausted retry bound is answered with an error. -/
+theorem c10_all_attempts_fail_closed :
+    ∀ (f : Nat) (F : Fn), GenC10.fns[f]? = some F →
+    ∀ (ρ : Env) (tr : List Ev) (x : CV), Run GenC10.fns audit f F.sk ρ tr x →
+    ∀ (g site : Nat), retriedAt g site tr = true → allFailAt g site tr = true → hasAbs tr = false →
+      ∃ i kind, tr[i]? = some (.sfail g site kind) ∧ retriedAt g site (tr.drop (i + 1)) = false ∧
+        noSucc (tr.drop (i + 1)) = true ∧ noFail (tr.drop (i + 1)) = true ∧ exitOK F.kind x (tr.drop (i + 1)) = true := by
+  intro f F hF ρ tr x hrun g site h1 h2 h3
+  exact all_attempts_fail_closed (fn_good c10_wf hF hrun) g site h1 h2 h3
+
+/-- faults at TWO indices of one request: the later failing call is only reached when the earlier failure was absorbed at an
+    audited site or its call was attempted again - a handler never goes on to other storage calls after a failure -/
+theorem c10_later_fault_needs_retry :
+    ∀ (f : Nat) (F : Fn), GenC10.fns[f]? = some F →
+    ∀ (ρ : Env) (tr : List Ev) (x : CV), Run GenC10.fns audit f F.sk ρ tr x →
+    ∀ (i j g s g' s' : Nat) (k k' : EKind), tr[i]? = some (.sfail g s k) → tr[j]? = some (.sfail g' s' k') → i < j →
+      hasAbs (tr.drop (i + 1)) = true ∨ retriedAt g s (tr.drop (i + 1)) = true := by
+  intro f F hF ρ tr x hrun i j g s g' s' k k' hi hj hij
+  exact later_fault_needs_retry (fn_good c10_wf hF hrun) hi hj hij
+
 /-! ### connection with the abstract core -/
 
 /-- the storage calls of an execution as a call sequence of the abstract model: a failed call is the failing step -/
@@ -285,35 +362,28 @@ theorem c10_device_mapping :
     failureWraps GenC10.fns audit.benign "CheckDeviceAuthorizationState" "GetDeviceAuthorizatonState" .plain = ["oidc.ErrAccessDenied"] ∧
     failureWraps GenC10.fns audit.benign "CheckDeviceAuthorizationState" "GetDeviceAuthorizatonState" .oidc = ["oidc.ErrAccessDenied"] := by decide
 
+/-- … and so are the further kinds: a cancelled context, a StatusError, a named sentinel (only a DEADLINE is `slow_down`) -/
+theorem c10_device_mapping_kinds :
+    ([EKind.canceled, .status, .named "ErrDuplicateUserCode", .named "ErrSignerCreationFailed"].all fun k =>
+      failureWraps GenC10.fns audit.benign "CheckDeviceAuthorizationState" "GetDeviceAuthorizatonState" k == ["oidc.ErrAccessDenied"]) = true := by decide
+
 /-- authorization endpoint of the Provider router: while the redirect URI is NOT yet validated (the client lookup itself fails)
     the error handed to AuthRequestError is the redirect-disabled `ErrInvalidRequestRedirectURI`, whatever the kind of failure -
     so the answer is never a redirect to the unvalidated URI -/
 theorem c10_unvalidated_redirect_guard :
-    ([EKind.plain, .deadline, .oidc].all fun k =>
+    ([EKind.plain, .deadline, .oidc, .canceled, .status, .named "ErrDuplicateUserCode"].all fun k =>
       failureWraps GenC10.fns audit.benign "Authorize.func1" "GetClientByClientID" k == ["oidc.ErrInvalidRequestRedirectURI"] &&
       failureWraps GenC10.fns audit.benign "ValidateAuthRequest" "GetClientByClientID" k == ["oidc.ErrInvalidRequestRedirectURI"]) = true := by decide
 
-/-! ### non-vacuity: concrete executions of the regenerated handlers (found by the executable path finder, `exec_sound`) -/
-
-/-- `/keys` with a failing KeySet (a timeout): the failure is followed by the error responder and nothing else -/
-example : execFn GenC10.fns audit "Keys" [.fail .deadline] =
-    some ([.sfail (GenC10.fns.findIdx (·.name == "Keys")) 0 .deadline, .resp "httphelper.MarshalJSONWithStatus"], .nil) := by decide
-
-/-- … and without a fault it builds the key set -/
-example : (execFn GenC10.fns audit "Keys" [.ok]).map (fun r => r.1.map Ev.isSucc) = some [false, true] := by decide
-
-/-- the token endpoint, authorization_code grant: AuthRequestByCode fails three functions below the handler
-    (CodeExchange → ValidateAccessTokenRequest → AuthorizeCodeClient → AuthRequestByCode); the error travels up and is answered -/
-example : (execFn GenC10.fns audit "CodeExchange"
-      [.val .nil, .right, .pick "ValidateAccessTokenRequest", .pick "AuthorizeCodeClient", .pick "AuthRequestByCode", .fail .oidc]).map
-      (fun r => (r.1.map Ev.isFail, r.1.map Ev.isResp, r.1.any Ev.isSucc)) = some ([true, false], [false, true], false) := by decide
+/-! ### non-vacuity (concrete executions of the regenerated handlers, whose scripts depend on the shape of the trees, are in
+    Proofs/C10Examples.lean - outside this module, so that an `extract function` rewrite cannot break the property's proofs) -/
 
 /-- the analysis is not vacuous: without the audited table the regenerated program does NOT pass … -/
 example : GenC10.fns.all (fnOK GenC10.fns { audit with tol := [] }) = false := by decide
 /-- … nor without the sentinel assumption (the credential fall-through of ClientIDFromRequest would count as a drop) -/
 example : GenC10.fns.all (fnOK GenC10.fns { audit with benign := [] }) = false := by decide
+set_option maxRecDepth 4096 in
 example : decide (GenC10.fns.length ≥ 100) = true := by decide
-example : (GenC10.fns.any fun F => F.name == "CreateTokenResponse" && F.sites.contains "Storage.DeleteAuthRequest") = true := by decide
 
 /-- the shape of the seeded defect C10-D (the error of the Basic-auth attempt is only looked at on ONE branch, the other one
     returns the form's client_id without an error) is reported as a drop … -/
@@ -330,17 +400,6 @@ example : drops [] [] [] [] .err (.call 0 (.storage "A") 0 (.ite (.call 1 (.stor
 example : drops [] [] [] [] .err (.call 0 (.storage "DeleteAuthRequest") 1 (.call 1 (.storage "CreateAccessToken") 0 (.ifErr 0 (.ret (.var 0 [] "")) (.ret .nil)))) [] (.clean none)
     = [(0, .callAfter)] := by decide
 example : drops [] [] [] [] .err (.call 0 (.storage "DeleteAuthRequest") 0 (.ret .nil)) [] (.clean none) = [(0, .retNotErr)] := by decide
-
-/-! ### the sentinel assumption is load-bearing (known finding F-C10b) -/
-
-/-- `benignSentinels` ASSUMES that a failing storage call does not return these values.  If `AuthorizeClientIDSecret` does answer
-    with an error that matches `ErrNoClientCredentials` (class `sent`: the model does not count it as a failure), ClientBasicAuth
-    hands it on, `ClientIDFromRequest` takes it for "no Basic header was sent" and returns the form's client_id without an error.
-    The stream injects exactly this value (kinds `ErrNoClientCredentials`, `wrap:ErrNoClientCredentials`) and the real handlers
-    then issue device codes: known-findings.jsonl F-C10b. -/
-example : (execFn GenC10.fns audit "ClientIDFromRequest"
-    [.val .nil, .val .nil, .right, .pick "ClientBasicAuth", .left, .right, .right, .sent, .left, .right]).map (fun r => (r.1.any Ev.isFail, r.2)) =
-    some (false, .nil) := by decide
 
 /-! ### bounded retry loops (unrolled by the translator: `.attempt i n`, then the statements after the loop) -/
 
@@ -382,5 +441,87 @@ def retryDemo : List Fn :=
 
 example : (execFn retryDemo { benign := [], tol := [] } "f" [.fail .plain, .ok]).map (fun r => (r.1, retriedAt 0 0 (r.1.drop 1))) =
     some ([.sfail 0 0 .plain, .sok 0 0, .succ "build"], true) := by decide
+
+/-! ### coverage: every storage method, the probes, loops -/
+
+/-- the storage methods called by the regenerated trees -/
+def extractedMethods : List String := dedupStr (GenC10.fns.flatMap fun F => storageMethods F.sk)
+
+/-- methods of the storage interfaces that no function of pkg/op between a handler and the storage calls (audited; the list is
+    PROVED to be exactly the uncalled ones, so a new interface method the extractor's table does not know appears here) -/
+def notCalledByHandlers : List (String × String) := []
+
+set_option maxRecDepth 8192 in
+/-- COVERAGE of the pluggable storage: every method with an error (ok) result of every storage interface declared in pkg/op
+    (`GenC10.storageInterface`, regenerated from the interface declarations: AuthStorage, OPStorage, Storage.Health, KeyProvider,
+    ClientCredentialsStorage, TokenExchangeStorage, TokenExchangeTokensVerifierStorage, DeviceAuthorizationStorage,
+    JWTProfileTokenStorage / JWTProfileKeyStorage, DiscoverStorage, CanTerminateSessionFromRequest, CanSetUserinfoFromRequest,
+    CanGetPrivateClaimsFromRequest) is a call site of some regenerated error-flow tree - hence under `c10_fail_closed_schedules` -/
+theorem c10_storage_interface_covered :
+    (dedupStr (GenC10.storageInterface.map (·.2))).filter (fun m => !extractedMethods.contains m) = notCalledByHandlers.map (·.1) := by decide
+
+set_option maxRecDepth 8192 in
+/-- … and conversely the extractor's table of storage methods names nothing that is not a declared interface method -/
+theorem c10_extracted_methods_declared : extractedMethods.all (fun m => (GenC10.storageInterface.map (·.2)).contains m) = true := by decide
+
+example : decide (GenC10.storageInterface.length ≥ 35) = true := by decide
+
+/-- nothing is left out of the extracted program (the readiness probe loops are loop functions: Proofs/C10Examples.lean) -/
+theorem c10_nothing_out_of_scope : GenC10.outOfScope = [] := by decide
+
+/-- a loop that goes on to the next iteration while a failure is pending is NOT accepted (callAfter at the back edge) … -/
+example : (let P : List Fn := [
+      { name := "h", file := "", kind := .void, handler := true, nvars := 2, sites := ["h.loop1", "Storage.Get", "h.loop1"], sk := .call 2 (.op [1]) 1 (.ret .nil) },
+      { name := "h.loop1", file := "", kind := .void, handler := true, nvars := 2, sites := ["h.loop1", "Storage.Get", "h.loop1"],
+        sk := .ite (.call 1 (.storage "Get") 0 (.call 0 (.op [1]) 1 (.ret .nil))) (.succ "ok" (.ret .nil)) }]
+    P.map fun F => dropSet (fnDrops P { benign := [], tol := [] } F)) = [[], [(1, .callAfter)]] := by decide
+
+/-- … one that answers and leaves is -/
+example : (let P : List Fn := [
+      { name := "h", file := "", kind := .void, handler := true, nvars := 2, sites := ["h.loop1", "Storage.Get", "h.loop1"], sk := .call 2 (.op [1]) 1 (.ret .nil) },
+      { name := "h.loop1", file := "", kind := .void, handler := true, nvars := 2, sites := ["h.loop1", "Storage.Get", "h.loop1"],
+        sk := .ite (.call 1 (.storage "Get") 0 (.ifErr 0 (.resp "http.Error" (.ret .nil)) (.call 0 (.op [1]) 1 (.ret .nil)))) (.succ "ok" (.ret .nil)) }]
+    P.all (fnOK P { benign := [], tol := [] })) = true := by decide
+
+/-! ### fault schedules: non-vacuity -/
+
+/-- the same call failing twice in a row (schedule `firstN 2`): the two-attempt retry ends with the error of the LAST attempt -/
+example : (execFn retryDemo { benign := [], tol := [] } "f" [.fail .plain, .fail (.named "ErrRetry")]).map
+      (fun r => (callOutcomes r.1, r.2, noSucc r.1, allFailAt 0 0 r.1)) =
+    some ([some .plain, some (.named "ErrRetry")], .hard (.named "ErrRetry"), true, true) := by decide
+
+example : Follows (Sched.firstN 2 .plain) [.sfail 0 0 .plain, .sfail 0 0 .plain] := by
+  intro j o h
+  match j with
+  | 0 => simp [callOutcomes] at h; simp [Sched.firstN, ← h]
+  | 1 => simp [callOutcomes] at h; simp [Sched.firstN, ← h]
+  | j + 2 => simp [callOutcomes] at h
+
+/-- the shape of seeded C10-M: three attempts, a NAMED kind makes `errors.Is(err, ErrDuplicateUserCode)` true on every attempt,
+    after the last one the (shadowed, nil) outer error is returned and the caller builds the answer: the execution under the
+    schedule "all three attempts fail with ErrDuplicateUserCode" reaches a success step - and the analysis reports the drop -/
+def c10mShape : List Fn :=
+  [{ name := "store", file := "", kind := .err, handler := false, nvars := 2, sites := ["Storage.StoreDeviceAuthorization"],
+     sk := .attempt 1 3 (.call 0 (.storage "StoreDeviceAuthorization") 1 (.ifIs 1 "ErrDuplicateUserCode"
+            (.attempt 2 3 (.call 0 (.storage "StoreDeviceAuthorization") 1 (.ifIs 1 "ErrDuplicateUserCode"
+              (.attempt 3 3 (.call 0 (.storage "StoreDeviceAuthorization") 1 (.ifIs 1 "ErrDuplicateUserCode"
+                (.ret (.var 0 [] "")) (.ret (.var 1 [] "")))))
+              (.ret (.var 1 [] "")))))
+            (.ret (.var 1 [] "")))) },
+   { name := "create", file := "", kind := .err, handler := false, nvars := 1, sites := ["store"],
+     sk := .call 0 (.op [0]) 0 (.ifErr 0 (.ret (.var 0 [] "NewStatusError")) (.succ "build" (.ret .nil))) }]
+
+example : (execFn c10mShape { benign := [], tol := [] } "create"
+      [.pick "store", .fail (.named "ErrDuplicateUserCode"), .fail (.named "ErrDuplicateUserCode"), .fail (.named "ErrDuplicateUserCode")]).map
+      (fun r => (callOutcomes r.1, r.1.any Ev.isSucc, r.2)) =
+    some ([some (.named "ErrDuplicateUserCode"), some (.named "ErrDuplicateUserCode"), some (.named "ErrDuplicateUserCode")], true, .nil) := by decide
+
+example : (c10mShape.map fun F => dropSet (fnDrops c10mShape { benign := [], tol := [] } F)) = [[(0, .retNotErr)], []] := by decide
+
+/-- a named kind is deterministic on its own sentinel, open on any other, and never matches an audited benign one -/
+example : isMatch ["ErrNoClientCredentials"] "ErrDuplicateUserCode" (.hard (.named "ErrDuplicateUserCode")) = some true := by decide
+example : isMatch ["ErrNoClientCredentials"] "ErrNoClientCredentials" (.hard (.named "ErrDuplicateUserCode")) = some false := by decide
+example : isMatch [] "context.Canceled" (.hard .canceled) = some true := by decide
+example : isMatch [] "context.DeadlineExceeded" (.hard .canceled) = some false := by decide
 
 end C10
